@@ -625,6 +625,10 @@ def call_strategy(families=False, raw_pool=False):
         _fd("vcv_local2cart", vcv=st.one_of(TR.psd3(), st.lists(st.lists(S.floats(0.0, 1.0), min_size=1, max_size=1), min_size=3, max_size=3)),
             lat=S.floats(-90, 90), lon=S.floats(-180, 180)),
         _fd("error_ellipse", vcv=TR.psd3()),
+        # near-circular horizontal blocks (equal variances up to a few per cent, small covariance): where special cases for "round"
+        # ellipses live
+        _fd("error_ellipse", vcv=st.tuples(S.floats(1e-6, 1.0), S.floats(-0.04, 0.04), S.floats(-0.02, 0.02), S.floats(0.1, 2.0)).map(
+            lambda t: [[t[0], t[0] * t[2], 0.0], [t[0] * t[2], t[0] * (1.0 + t[1]), 0.0], [0.0, 0.0, t[0] * t[3]]])),
         _fd("relative_error", lat=S.floats(-90, 90), lon=S.floats(-180, 180), v1=TR.psd3(), v2=TR.psd3(),
             c12=st.just([[0.0] * 3] * 3)),
         _fd("k_val95", dof=st.integers(-5, 200)),
